@@ -555,3 +555,65 @@ Qed.
 
 Lemma schedule_batch_est k s : schedule_batch k (est s) = est (schedule_batch k s).
 Proof. unfold schedule_batch. rewrite get_batch_est. destruct (b_done _); [reflexivity|]. cbn [sb est]. destruct (existsb _ _); reflexivity. Qed.
+
+Lemma flush_body_est items : forall i ra s,
+  flush_body items i ra (est s) = (est (fst (flush_body items i ra s)), snd (flush_body items i ra s)).
+Proof.
+  induction items as [|h rest IH]; intros i ra s; cbn [flush_body].
+  - reflexivity.
+  - assert (E : match get h (est s) with
+                | Some (mkFut _ (KItem _ _ _ (ASet v))) => complete_item h (Ok v) (est s)
+                | Some (mkFut _ (KItem _ _ _ (AErr e'))) => complete_item h (Err e') (est s)
+                | _ => est s
+                end = est (match get h s with
+                | Some (mkFut _ (KItem _ _ _ (ASet v))) => complete_item h (Ok v) s
+                | Some (mkFut _ (KItem _ _ _ (AErr e'))) => complete_item h (Err e') s
+                | _ => s
+                end)).
+    { rewrite get_est. destruct (get h s) as [[o [tk|kind idx key [v|e'|]| |]]|]; cbn; try reflexivity; apply complete_item_est. }
+    destruct ra as [[k e]|].
+    + destruct (Z.eqb i k); [reflexivity|]. rewrite E. apply IH.
+    + rewrite E. apply IH.
+Qed.
+
+Lemma flush_batch_est P k s : flush_batch P k (est s) = est (flush_batch P k s).
+Proof.
+  unfold flush_batch. rewrite get_batch_est. destruct (b_done (get_batch k s)); [reflexivity|].
+  rewrite cur_idx_est.
+  assert (E0 : (if Z.eqb (cur_idx (fst k) s) (snd k) then with_cur (est s) (upd Z.eqb (fst k) (snd k + 1) (cur (est s))) else est s) =
+               est (if Z.eqb (cur_idx (fst k) s) (snd k) then with_cur s (upd Z.eqb (fst k) (snd k + 1) (cur s)) else s)).
+  { destruct (Z.eqb _ _); reflexivity. }
+  rewrite E0. rewrite emit_est by reflexivity. rewrite flush_body_est.
+  match goal with |- context [flush_body ?a ?b ?c ?d] => destruct (flush_body a b c d) as [s2 err] end. cbn [fst snd].
+  rewrite (fold_est (fun s h => complete_item h _ s)) by (intros; apply complete_item_est).
+  rewrite get_batch_est. reflexivity.
+Qed.
+
+Lemma first_max_est P l : forall best s, first_max P l best (est s) = first_max P l best s.
+Proof.
+  induction l as [|k l IH]; intros best s; cbn [first_max]; [reflexivity|].
+  destruct best as [b|]; [|apply IH].
+  change (prio_of P b (est s)) with (prio_of P b s). change (prio_of P k (est s)) with (prio_of P k s).
+  destruct (prio_lt _ _); apply IH.
+Qed.
+
+Lemma create_est parent f s : create parent (erase_fexpr f) (est s) = (fst (create parent f s), est (snd (create parent f s))).
+Proof.
+  unfold create, alloc. cbn zeta. destruct f as [p|kind key a|v|e|o]; cbn [erase_fexpr fst snd];
+    try (rewrite <- put_est; reflexivity).
+  rewrite <- put_batch_est, <- put_est. reflexivity.
+Qed.
+
+Lemma erase_covered p : rtree0 p -> wnr [] p -> tree (erase p) /\ wn [] (erase p).
+Proof. intros H1 H2. split; [apply tree_erase; exact H1|apply wn_erase; exact H2]. Qed.
+
+(* STATUS.  Proved above: the class lemmas (tree_erase, wn_erase), the class invariant of rtree0 runs (rh_run,
+   rtree0_run_class: a read met by the machine never branches, so erasing it is sound whatever value it got), and
+   [helper (est s) = est (helper s)] for put, set_task, enter_ctx, pause_plain, exit_ctx, complete_task,
+   accept_error, resume1, pause1, resume_contexts, pause_contexts, complete_item, flush_body, flush_batch,
+   first_max, schedule_batch, create (with erase_fexpr).
+   NOT yet proved (needed for the stuttering simulation  ecfg (step P c) = step P (ecfg c)  or  = ecfg c  at a read):
+   the same commutation for select / continue_with_batch (from first_max_est), inst (from create_est, by
+   ystruct_ind2 with ymap erase_leaf), and the case analysis of [step] itself; then the transport of
+   reads_see_enclosing_overrides_tree / reads_innermost_tree / values_restored_tree / async_eq_seq_tree from the
+   run of [erase p] to the run of p (var_get, layers, tasks, tk_ctxs are untouched by est). *)
